@@ -5,7 +5,7 @@
            methods/__init__.py recv_udp/send_udp (71-82), methods/tproxy.py recv_udp/send_udp (20-96).
    Server: sshuttle/server.py  DnsProxy (169-253), UdpProxy (256-284), dns_req/udp_req/udp_open
            (368-406), the sweeps in main (420-438); ssnet.py runonce (584-609), Mux.got_packet (394-439).
-   The model is the code AFTER the repairs F3, F4, F10, F16 (pending_fixes/); every step function takes
+   The model is the code AFTER the repairs F3, F4, F10, F16, F80 (pending_fixes/); every step function takes
    a `fixes` record and the `_asfound` variants (all flags false) are the code as found.
    Definitions only; proofs live in Proofs/Dgram_lemmas.v.                                           *)
 From Coq Require Import List NArith Ascii Bool.
@@ -40,9 +40,9 @@ Definition bind {A B} (r : res A) (f : A -> res B) : res B :=
 Notation "'do' x <- r ; k" := (bind r (fun x => k)) (at level 200, x pattern, r at level 100, k at level 200).
 
 (* which of the four repairs are present; all_fixed is the modelled code *)
-Record fixes := { fx3 : bool; fx4 : bool; fx10 : bool; fx16 : bool }.
-Definition all_fixed : fixes := {| fx3 := true; fx4 := true; fx10 := true; fx16 := true |}.
-Definition as_found : fixes := {| fx3 := false; fx4 := false; fx10 := false; fx16 := false |}.
+Record fixes := { fx3 : bool; fx4 : bool; fx10 : bool; fx16 : bool; fx80 : bool }.
+Definition all_fixed : fixes := {| fx3 := true; fx4 := true; fx10 := true; fx16 := true; fx80 := true |}.
+Definition as_found : fixes := {| fx3 := false; fx4 := false; fx10 := false; fx16 := false; fx80 := false |}.
 
 Definition TIMEOUT : N := 30.        (* the literal 30 in client.py 555,584 and server.py 173 *)
 Definition BUFSIZE : N := 4096.      (* recv_udp(listener, 4096), recv(4096), recvfrom(4096) *)
@@ -431,8 +431,9 @@ Definition set_handler (s : sstate) (hid : N) (h : shandler) (nsock : N) : sstat
 
 Definition remove_chan (ch : N) (l : list N) : list N := filter (fun x => negb (N.eqb x ch)) l.
 
-(* udp_req (server.py 379-392), reached through mux.channels[channel] *)
-Definition udp_req (ch : N) (cmd : fcmd) (data : bytes) (s : sstate) (io : list io_item)
+(* udp_req (server.py 379-392 + F80 repair: UDP_CLOSE also forgets udphandlers[channel]; as found the entry
+   stays until the sweep after runonce), reached through mux.channels[channel] *)
+Definition udp_req (fx : fixes) (ch : N) (cmd : fcmd) (data : bytes) (s : sstate) (io : list io_item)
   : res (sstate * list io_item * list sout) :=
   match cmd with
   | FUdpData =>
@@ -464,7 +465,8 @@ Definition udp_req (ch : N) (cmd : fcmd) (data : bytes) (s : sstate) (io : list 
       match alookup N.eqb hid (s_h s) with
       | Some (HUdp u) =>
         let s1 := set_handler s hid (HUdp (set_uok u false)) (s_nsock s) in
-        Ok ({| s_h := s_h s1; s_dnsh := s_dnsh s1; s_udph := s_udph s1;
+        Ok ({| s_h := s_h s1; s_dnsh := s_dnsh s1;
+               s_udph := if fx80 fx then adel N.eqb ch (s_udph s1) else s_udph s1;
                s_chan := remove_chan ch (s_chan s1); s_nsock := s_nsock s1; s_nhid := s_nhid s1 |}, io, [])
       | _ => Crash XKey
       end
@@ -479,7 +481,7 @@ Definition s_frame (fx : fixes) (cfg : scfg) (now : N) (f : N * fcmd * bytes * N
   match cmd with
   | FDnsReq => if mem ch (s_chan s) then Crash XAssert else dns_req fx cfg now ch data tag s io
   | FUdpOpen => if mem ch (s_chan s) then Crash XAssert else udp_open ch data s io
-  | _ => if mem ch (s_chan s) then udp_req ch cmd data s io else Ok (s, io, [])
+  | _ => if mem ch (s_chan s) then udp_req fx ch cmd data s io else Ok (s, io, [])
   end.
 
 Definition remove_sock (x : N) (l : list N) : list N := filter (fun y => negb (N.eqb y x)) l.
